@@ -56,6 +56,15 @@ func safeWrite(f *ach.File, crlf bool) (s string, err error) {
 	return gen.Text(f, crlf)
 }
 
+func safeWriteMode(f *ach.File, mode int) (s string, le string, err error) {
+	defer func() {
+		if r := recover(); r != nil {
+			err = fmt.Errorf("panic: %v", r)
+		}
+	}()
+	return gen.TextMode(f, mode)
+}
+
 func safeRead(text string) (f *ach.File, err error) {
 	defer func() {
 		if r := recover(); r != nil {
@@ -231,12 +240,13 @@ func oracle(args []string) {
 		b, _ := json.Marshal(v)
 		res.Printf("%s\n", b)
 	}
-	sum := summary{Kind: "summary", Dist: map[string]int{}, Rule: "domain 1: files built by gen through the public constructors + Create (every SEC, IAT, ADV, returns/NOC, offsets; record-count residues mod 10 tallied); domain 2: files the Reader returns without error for fixtures, mutated valid texts and byte noise under default options; each written with LF and CRLF; a write that reports success is checked for 94-character records, line endings, blocking, filler, record order and (domain 1) control counts; non-trivial = the writer reported success; distinct by output text"}
+	sum := summary{Kind: "summary", Dist: map[string]int{}, Rule: "domain 1: files built by gen through the public constructors + Create (every SEC, IAT, ADV, returns/NOC, offsets; record-count residues mod 10 tallied); domain 2: files the Reader returns without error for fixtures, mutated valid texts and byte noise under default options; each written with LF and CRLF, the line ending configured through WriteOpts and through the Writer's exported LineEnding field (4 writer modes); a write that reports success is checked for 94-character records, line endings, blocking, filler, record order and (domain 1) control counts; non-trivial = the writer reported success; distinct by output text"}
 	seen := map[string]bool{}
 	residues := map[int]int{}
 	check := func(f *ach.File, created bool, desc map[string]any) {
-		for _, crlf := range []bool{false, true} {
-			text, err := safeWrite(f, crlf)
+		for mode := 0; mode < 4; mode++ {
+			text, le, err := safeWriteMode(f, mode)
+			crlf := le == "\r\n"
 			sum.Evaluations++
 			if err != nil {
 				sum.Dist["write-refused"]++
@@ -247,15 +257,11 @@ func oracle(args []string) {
 				seen[text] = true
 				sum.Distinct++
 			}
-			le := "\n"
-			if crlf {
-				le = "\r\n"
-			}
-			if created && !crlf {
+			if created && mode == 0 {
 				residues[strings.Count(strings.ReplaceAll(text, nines+le, ""), le)%10]++
 			}
 			if key, what := physical(text, le, created, f); key != "" {
-				c := map[string]any{"crlf": crlf, "output": hx.Enc(text)}
+				c := map[string]any{"crlf": crlf, "writer_mode": mode, "output": hx.Enc(text)}
 				for k, v := range desc {
 					c[k] = v
 				}
@@ -377,14 +383,10 @@ func replay(args []string) {
 		return
 	}
 	rc := 0
-	for _, crlf := range []bool{false, true} {
-		text, err := safeWrite(f, crlf)
+	for mode := 0; mode < 4; mode++ {
+		text, le, err := safeWriteMode(f, mode)
 		if err != nil {
 			continue
-		}
-		le := "\n"
-		if crlf {
-			le = "\r\n"
 		}
 		if key, what := physical(text, le, false, f); key != "" {
 			fmt.Println(key, what)
